@@ -14,6 +14,8 @@ import (
 	"berty.tech/go-ipfs-log/entry"
 	"berty.tech/go-ipfs-log/entry/sorting"
 	"berty.tech/go-ipfs-log/iface"
+	"github.com/ipfs/go-cid"
+	mh "github.com/multiformats/go-multihash"
 )
 
 type orderStats struct {
@@ -46,8 +48,37 @@ func runOrder(seed int64, n int, out *bufio.Writer, thorough bool) *orderStats {
 	st := &orderStats{TimeClasses: map[string]int{}}
 	r := rand.New(rand.NewSource(seed))
 	nAl := 0
+	// hashes: mostly CIDv1 dag-cbor (what the library writes); a third are other forms of a small set of
+	// multihashes — CIDv0, CIDv1 dag-pb, CIDv1 raw — so that different versions and codecs of one digest
+	// meet in one comparison
+	var digests [][]byte
+	for i := 0; i < 5; i++ {
+		d := make([]byte, 12)
+		for j := range d {
+			d[j] = byte(r.Intn(256))
+		}
+		digests = append(digests, d)
+	}
+	orderCid := func() cid.Cid {
+		if r.Intn(3) != 0 {
+			return unknownCid(r)
+		}
+		d := digests[r.Intn(len(digests))]
+		sum, err := mh.Sum(d, mh.SHA2_256, -1)
+		if err != nil {
+			panic(err)
+		}
+		switch r.Intn(3) {
+		case 0:
+			return cid.NewCidV0(sum)
+		case 1:
+			return cid.NewCidV1(cid.DagProtobuf, sum)
+		default:
+			return cid.NewCidV1(cid.Raw, sum)
+		}
+	}
 	mk := func(t int, id []byte, hsel int, pool []iface.IPFSLogEntry) iface.IPFSLogEntry {
-		var c = unknownCid(r)
+		var c = orderCid()
 		if hsel >= 0 && hsel < len(pool) {
 			c = pool[hsel].GetHash()
 		}
